@@ -48,7 +48,9 @@ func Harness_C08_cacheable_restart() {
 	hc.Cacheable(resp, T)
 	verifAssert("C08.write-through", st.sets >= 1 && st.has && string(st.key) == string(key))
 	// the store must keep the record at least as long as the entry is fresh
-	verifAssert("C08.ttl-covers-remaining-lifetime", st.ttl >= time.Duration(hc.expiredAt-ghostClock)*time.Second)
+	// (only where the entry is still fresh at the time of the write and the product cannot wrap)
+	remaining := hc.expiredAt - ghostClock
+	verifAssert("C08.ttl-covers-remaining-lifetime", verifImplies(verifAnd(remaining >= 0, remaining < 1<<32), st.ttl >= time.Duration(remaining)*time.Second))
 	// the persisted bytes are those of the final in-memory state
 	final, err := hc.Bytes()
 	verifAssert("C08.persisted-final-state", err == nil && string(final) == string(st.data))
